@@ -45,7 +45,8 @@ THEOREMS = ['C16_split_flags_star', 'C16_split_flags_plus',
             'C16_run_t_plain', 'C16_expanded_table',
             'C16_bc_designates_present_same_locus_trcl',
             'C16_trcl_copy_has_entry', 'C16_unflagged_deck_no_entries',
-            'C16_macrobody_flag_stops_run_t',
+            'C16_macrobody_flag_stops_run_t', 'C16_bc_entry_sound',
+            'C16_bc_never_designates_other_locus', 'C16_run_t_block_exact',
             'C16_bc_trcl_original_refuted', 'C16_bc_trcl_copy_dedup_refuted']
 TRUSTED = [
     'hand-written model coq/C16/Model.v (modelled, tied by execution only)',
@@ -969,9 +970,9 @@ def report(res, deck, args, problems, where):
 def run(res, tier, seed, proofs_ok):
     rng = random.Random(seed)
     quick = tier == 'quick'
-    n_valid = 500 if quick else 4000
-    n_bad = 260 if quick else 2000
-    n_rich = 320 if quick else 2500
+    n_valid = 500 if quick else 12000
+    n_bad = 260 if quick else 5000
+    n_rich = 320 if quick else 6000
     res.rule = ('abstract decks: 2-7 surfaces from a pool of 14 descriptor '
                 'classes in 36 spellings, 0-4 flagged * or +, duplicates of '
                 'flagged surfaces (smaller and larger numbers, same or other '
